@@ -17,8 +17,11 @@ package main
 //@     assert (= path@arg elem)                                                                             [C03]
 //@   at call Parser.OutputToWriter#1
 //@     assert (and (= (options.OutputPath opts) 0) (= format@arg format))                                   [C05]
+//@     assert (=> (not (= (options.OutputFormat opts) 0)) (= format@arg (deref_String (options.OutputFormat opts))))   [C05]   -- -f wins
 //@   at call Parser.OutputToFile#1
 //@     assert (and (not (= (options.OutputPath opts) 0)) (= format@arg format))                             [C05]
+//@     assert (=> (not (= (options.OutputFormat opts) 0)) (= format@arg (deref_String (options.OutputFormat opts))))   [C05]   -- -f wins over the -o extension
+//@     assert (=> (= (options.OutputFormat opts) 0) (= format@arg ""))                                         [C05]   -- without -f the -o extension decides (OutputToFile)
 //@   at call Parser.MergeFile#1
 //@     assert (= path@arg realPath)                                                                         [C03]
 //@     assert (options.SkipParent opts)                                                                     [C03]
